@@ -4,6 +4,7 @@ From Coq Require Import SpecFloat Lia ZifyBool.
 From GenqlV Require Import Base.Prelude Base.Fmt Model.MySqlString Model.Sanitizer.
 Local Open Scope string_scope.
 Local Open Scope bool_scope.
+Local Opaque strip10 wrap64.
 
 Lemma set_nth_length {A} (l : list A) i x l' : set_nth l i x = Some l' -> List.length l' = List.length l.
 Proof.
@@ -31,12 +32,12 @@ Qed.
 
 Lemma fmt_f_no_panic f : fmt_f f <> Panic.
 Proof.
-  destruct f; cbn; try discriminate.
+  destruct f; unfold fmt_f; try discriminate.
   destruct (strip10 _ _ _). destruct (Nat.leb _ _); discriminate.
 Qed.
 
 Lemma fmt_arg_no_panic a : fmt_arg a <> Panic.
-Proof. destruct a; cbn; try discriminate. apply fmt_f_no_panic. Qed.
+Proof. destruct a; unfold fmt_arg; try discriminate. apply fmt_f_no_panic. Qed.
 
 Section Loop.
   Variable qs : bytes -> bytes.
@@ -156,8 +157,10 @@ Proof.
     destruct (H2 j Hj') as [Hbad|Hex]; [|exact Hex]. exfalso. eapply nth_error_repeat_false. eassumption.
 Qed.
 
+Local Transparent wrap64.
 Lemma wrap64_id z : (-9223372036854775808 <= z < 9223372036854775808)%Z -> wrap64 z = z.
 Proof. intro H. unfold wrap64. rewrite Z.mod_small; lia. Qed.
+Local Opaque wrap64.
 
 (* $0 (and any placeholder number below 1 that fits an int64) is an error, never a panic *)
 Corollary dollar_zero_is_error : forall parts args n,
